@@ -363,6 +363,8 @@ func runC01(c *kit.Ctx) {
 	// a server that says "the region is not here (any more)" makes the client look the region up again
 	exceptionTableOracle(c)
 	discoverersDetachOverlaps(c)
+	cacheDelAlwaysDetaches(c)
+	tableNotFoundEvicts(c)
 	establisherHandoff(c)
 	failedAttemptRelooksUp(c)
 	regionAttributesAreImmutable(c)
